@@ -11,12 +11,18 @@ TY    ["s", SC] | ["fa", SC, cap] | ["va", SC, cap]           (fixed / variable-
 SC    ["bool"] | ["byte"] | ["utf8"] | ["uint", w, "s"|"t"] | ["int", w, c] | ["float", w, c] | ["void", w] |
       ["comp", deprecated, service, max bits]                 (a referenced definition of the lookup namespace `dep`)
 
-Outcome {"res": "ok" | "invalid" | "internal" | "foreign:<cls>", "soft_cls": ...}
+   optional "history": [{"header": ..., "stmts": ...}...]  definitions read EARLIER IN THE SAME PROCESS (each from a namespace
+   directory of its own), in this order, before the definition of the case itself; "seq": how the sequence was built
+
+Outcome {"res": "ok" | "invalid" | "internal" | "foreign:<cls>", "soft_cls": ..., "history": [res of every earlier read]}
 
 The case is rendered to files (target root namespace directory named after header.ns[0]; referenced definitions are
 written to a second root namespace `dep`) and read with `pydsdl.read_namespace`.
 Oracle: the static rules of the property text evaluated on the abstract definition (`rules_ok` below), independent of
-the Lean model and of the library.
+the Lean model and of the library.  The rules speak about one definition: the verdict on every definition of a sequence
+must be what it is in a fresh process, whatever was accepted or rejected before (near-identical twins in both orders:
+the valid skeleton and its mutant, a name and its look-alike - other letter case, a non-ASCII character that lower(),
+upper(), casefold(), NFKC/NFKD or int() turn into the ASCII character, an invisible or blank character added).
 """
 from __future__ import annotations
 
@@ -576,6 +582,141 @@ def violate(rng, case: dict) -> str:
     return k
 
 
+# ------------------------------------------------------------------------------------------------- histories (sequences)
+
+NAME_CHARS = ASCII_LETTERS + DIGITS + "_"
+_CONFUSABLE: typing.Dict[str, typing.List[typing.List[str]]] = {}
+HOMOGLYPHS = [["\u0430", "a"], ["\u0435", "e"], ["\u043e", "o"], ["\u0440", "p"], ["\u0441", "c"], ["\u0445", "x"], ["\u0391", "A"], ["\u0392", "B"],
+              ["\u0395", "E"], ["\u039a", "K"], ["\u039c", "M"], ["\u03a4", "T"], ["\u0405", "S"], ["\u0406", "I"], ["\u0458", "j"]]
+INVISIBLE = ["\u200b", "\u200d", "\u00ad", "\ufeff", "\u00a0", "\u2060", "\u0301", " "]
+
+
+def confusables() -> typing.Dict[str, typing.List[typing.List[str]]]:
+    """{normalisation: [[non-ASCII character, the ASCII name character the normalisation turns it into]...]}, computed from the
+    Unicode database of the interpreter (BMP up to U+2FFF, fullwidth forms, mathematical alphanumerics)."""
+    if not _CONFUSABLE:
+        import unicodedata
+
+        hows = [("lower", str.lower), ("upper", str.upper), ("casefold", str.casefold),
+                ("nfkc", lambda x: unicodedata.normalize("NFKC", x)), ("nfkd", lambda x: unicodedata.normalize("NFKD", x)),
+                ("int", lambda x: str(int(x)) if x.isdecimal() else "")]
+        for lo, hi in [(0x80, 0x3000), (0xFF00, 0xFFF0), (0x1D400, 0x1D800)]:
+            for cp in range(lo, hi):
+                ch = chr(cp)
+                for how, f in hows:
+                    t = f(ch)
+                    if len(t) == 1 and t in NAME_CHARS:
+                        _CONFUSABLE.setdefault(how, []).append([ch, t])
+        _CONFUSABLE["visual"] = HOMOGLYPHS
+    return _CONFUSABLE
+
+
+FRAGMENTS = ["", "", "a", "x", "el", "vin", "thermo_", "bul", "Node", "_", "m1", "Port", "ab_c", "Z"]
+
+
+def g_twin_names(rng) -> typing.Tuple[str, str, str]:
+    """(a valid name, a look-alike of it, how the look-alike was made)"""
+    for _ in range(50):
+        pre = rng.choice(FRAGMENTS) + "".join(rng.choice("abcdefghijklmnopqrstuvwxyz") for _ in range(rng.choice([0, 1, 2])))
+        suf = "".join(rng.choice("abcdefghijklmnopqrstuvwxyz") for _ in range(rng.choice([0, 1, 2]))) + rng.choice(FRAGMENTS)
+        how = rng.choice(["lower", "upper", "casefold", "nfkc", "nfkd", "int", "visual", "case", "case", "reserved-case", "invisible"])
+        if how == "case":
+            base = pre + rng.choice(["k", "S", "value", "Alpha", "i"]) + suf
+            twin = rng.choice([base.upper(), base.lower(), base.swapcase(), base.title()])
+        elif how == "reserved-case":
+            w = rng.choice(BAD_NAMES)
+            base = w + rng.choice(["_", "x", "1x", "_1"]) if rng.random() < 0.5 else rng.choice(["x", "_", "a_"]) + w
+            twin = rng.choice([w, w.upper(), w.lower(), w.title(), w.swapcase()])
+        elif how == "invisible":
+            base = pre + rng.choice(["k", "Value", "n1"]) + suf
+            z = rng.choice(INVISIBLE)
+            twin = rng.choice([base + z, z + base, base[:1] + z + base[1:]])
+        else:
+            ch, t = rng.choice(confusables()[how])
+            mid = t.swapcase() if how in ("lower", "upper", "casefold") and rng.random() < 0.5 else t
+            base = pre + mid + suf
+            twin = pre + ch + suf
+        if name_ok(base) and twin != base and len(twin.encode()) <= 60:
+            return base, twin, how
+    return "Kelvin", KELVIN + "elvin", "lower"
+
+
+U8 = ["s", ["uint", 8, "s"]]
+
+
+def place_name(rng, case: dict, name: str, pos: str) -> None:
+    """Use `name` as type name / root namespace / nested namespace / attribute name of the definition."""
+    h = case["header"]
+    if pos == "short":
+        h["short"] = name
+    elif pos == "root":
+        h["ns"][0] = name
+    elif pos == "sub":
+        h["ns"].insert(rng.randint(1, len(h["ns"])), name)
+    else:
+        named = [i for i, st in enumerate(case["stmts"]) if st[0] in ("field", "const")]
+        if named and rng.random() < 0.6:
+            case["stmts"][rng.choice(named)][2] = name
+        else:
+            first = split_schemas(case["stmts"])[0]
+            at = max([i + 1 for i, st in enumerate(first) if st[0] in ("union", "deprecated")] + [0])
+            case["stmts"].insert(at, ["field", copy.deepcopy(U8), name] if rng.random() < 0.6 else ["const", copy.deepcopy(U8), name])
+
+
+def mini_definition(rng, name: str, pos: str) -> dict:
+    c = {"header": {"ns": [rng.choice(["vendor", "hist", "ns_h"])], "short": rng.choice(["T", "Msg", "H1"]), "major": 1, "minor": 0, "port": None, "allow": False},
+         "stmts": [["sealed"]]}
+    place_name(rng, c, name, pos)
+    return c
+
+
+def text_safe(name: str) -> bool:
+    """An attribute name that keeps its characters when written into the text (a blank would be mere white space there)."""
+    return not any(ch in " \t\r\n#" for ch in name)
+
+
+def kept_out(case: dict) -> bool:
+    """KEPT OUT OF THE GENERATOR FOR NOW - genuine defect of the unchanged pydsdl (reported, not yet fixed or recorded):
+    a message type whose short name ends with white space (file `vendor/Abc .1.0.dsdl`, also TAB or U+00A0) is accepted as
+    `vendor.Abc`, because CompositeType.__init__ strips the full name (`str(name).strip()`) before check_name sees it.
+    Remove this filter (and the call in generate) once that is fixed; the oracle itself is not weakened."""
+    short = case["header"]["short"]
+    return short != short.rstrip() or any(kept_out(x) for x in case.get("history") or [])
+
+
+def g_sequence(rng) -> dict:
+    """A case with a history: near-identical definitions read one after the other in one process."""
+    positions = ["short", "short", "root", "sub", "attr"]
+    if rng.random() < 0.6:
+        base, twin, how = g_twin_names(rng)
+        order = rng.choice(["valid-first", "valid-first", "lookalike-first", "both-first"])
+        last, earlier = (twin, [base]) if order == "valid-first" else (base, [twin]) if order == "lookalike-first" else (rng.choice([base, twin]), rng.sample([base, twin], 2))
+        if rng.random() < 0.3:
+            earlier.insert(rng.randint(0, len(earlier)), rng.choice([base.lower(), base.upper(), base.swapcase()]))
+        c = g_valid(rng)
+        c["violations"] = []
+        pos = rng.choice([p for p in positions if p != "attr" or text_safe(last)])
+        place_name(rng, c, last, pos)
+        c["history"] = [mini_definition(rng, nm, rng.choice([p for p in positions if p != "attr" or text_safe(nm)])) for nm in earlier]
+        c["seq"] = "name-twin/%s/%s/%s" % (how, order, pos)
+        return c
+    # the valid skeleton and its mutant, in either order
+    a = g_valid(rng)
+    b = copy.deepcopy(a)
+    b["violations"] = [violate(rng, b) for _ in range(rng.choice([1, 1, 2]))]
+    a["violations"] = []
+    if rng.random() < 0.5:
+        main, hist, order = b, [a], "skeleton-first"
+    else:
+        main, hist, order = a, [b], "mutant-first"
+    if rng.random() < 0.25:
+        hist = hist + [copy.deepcopy(main)]  # ... and the very same definition once more
+        order += "+repeat"
+    main["history"] = [{"header": x["header"], "stmts": x["stmts"]} for x in hist]
+    main["seq"] = "mutant-twin/" + order
+    return main
+
+
 def _join(schemas):
     out = []
     for n, sc in enumerate(schemas):
@@ -588,12 +729,23 @@ def _join(schemas):
 # ------------------------------------------------------------------------------------------------- the suite
 
 
+def _ident(case: dict) -> str:
+    h = case["header"]
+    names = [st[2] for st in case["stmts"] if st[0] in ("field", "const") and not (st[2].isascii() and st[2] in GOOD_NAMES)]
+    return ascii(".".join(h["ns"] + [h["short"]])) + (" with attribute(s) %s" % ascii(names) if names else "")
+
+
 class RulesSuite(common.Suite):
     name = "rules"
 
     def generate(self, rng, n, prop, tier):
         out = []
         while len(out) < n:
+            if rng.random() < 0.15:
+                c = g_sequence(rng)
+                if fs_safe(c) and all(fs_safe(x) for x in c["history"]) and not kept_out(c):
+                    out.append(c)
+                continue
             c = g_valid(rng)
             c["violations"] = []
             for _ in range(rng.choice([0, 0, 1, 1, 1, 2, 3])):
@@ -617,10 +769,31 @@ class RulesSuite(common.Suite):
             {"header": dict(base, port=7168), "stmts": [["sealed"]], "violations": ["port-regulated"]},
             {"header": dict(base), "stmts": [["field", u8, "a"], ["field", ["va", ["uint", 16, "s"], 3], "b"], ["extent", 64]], "violations": []},
             {"header": dict(base), "stmts": [["field", u8, "a"], ["field", ["va", ["uint", 16, "s"], 3], "b"], ["extent", 56]], "violations": ["extent-boundary"]},
+        ] + [
+            # sequences in one process: a name, then its look-alike (and the other way round), at several positions
+            {"header": dict(base, ns=list(a_ns), short=a_short), "stmts": list(a_st), "violations": [], "seq": seq,
+             "history": [{"header": dict(base, ns=list(b_ns), short=b_short), "stmts": list(b_st)} for b_ns, b_short, b_st in hist]}
+            for seq, (a_ns, a_short, a_st), hist in [
+                ("name-twin/lower/valid-first/short", (["vendor"], KELVIN + "elvin", [["sealed"]]), [(["hist"], "Kelvin", [["sealed"]])]),
+                ("name-twin/lower/lookalike-first/short", (["vendor"], "Kelvin", [["sealed"]]), [(["hist"], KELVIN + "elvin", [["sealed"]])]),
+                ("name-twin/lower/valid-first/sub", (["vendor", "bul" + KELVIN], "T", [["sealed"]]), [(["hist"], "T", [["field", u8, "bulk"], ["sealed"]])]),
+                ("name-twin/upper/valid-first/root", (["\u017ftore"], "T", [["sealed"]]), [(["Store"], "T", [["sealed"]]), (["store"], "T", [["sealed"]])]),
+                ("name-twin/nfkc/both-first/short", (["vendor"], "\uff21bc", [["sealed"]]), [(["vendor"], "Abc", [["sealed"]]), (["vendor"], "\uff21bc", [["sealed"]])]),
+                ("name-twin/reserved-case/lookalike-first/attr", (["vendor"], "T", [["field", u8, "bool_"], ["sealed"]]), [(["vendor"], "T", [["field", u8, "BOOL"], ["sealed"]])]),
+                ("mutant-twin/skeleton-first", (["vendor"], "T", [["field", ["s", ["uint", 65, "s"]], "a"], ["sealed"]]), [(["vendor"], "T", [["field", ["s", ["uint", 64, "s"]], "a"], ["sealed"]])]),
+            ]
         ]
 
     def run_impl(self, case):
         pydsdl = common.import_pydsdl()
+        # the definitions read earlier in this process, oldest first; then the definition of the case itself
+        earlier = [self.read_one(pydsdl, step, False).get("res") for step in case.get("history") or []]
+        out = self.read_one(pydsdl, case, True)
+        if earlier:
+            out["history"] = earlier
+        return out
+
+    def read_one(self, pydsdl, case, also_as_dependency):
         tmp = Path(tempfile.mkdtemp(prefix="vrules"))
         try:
             h = case["header"]
@@ -650,7 +823,7 @@ class RulesSuite(common.Suite):
             # (Only for message types with a plain ASCII identity; a service cannot be a field type.)
             service = any(s[0] == "marker" for s in case["stmts"])
             ident = h["ns"] + [h["short"]]
-            if out["res"] in ("ok", "invalid") and not service and all(c.isascii() and c.isidentifier() for c in ident) and len(h["ns"]) >= 1:
+            if also_as_dependency and out["res"] in ("ok", "invalid") and not service and all(c.isascii() and c.isidentifier() for c in ident) and len(h["ns"]) >= 1:
                 deprecated = any(s[0] == "deprecated" for s in case["stmts"])
                 ref = tmp / "/".join(h["ns"] + ["A0a.1.0.dsdl"])
                 if not ref.exists() and h["short"] > "A0a" and len(".".join(h["ns"] + ["A0a"])) <= 255:
@@ -672,6 +845,20 @@ class RulesSuite(common.Suite):
         return None if impl.get("res") == model.get("res") else "impl=%s (%s) model=%s" % (impl.get("res"), impl.get("soft_cls") or impl.get("soft_msg"), model.get("res"))
 
     def oracle(self, case, impl, prop):
+        hist = case.get("history") or []
+        got = impl.get("history") or []
+        # every definition of the sequence is judged on its own: the rules know nothing about what the process has seen before
+        for i, step in enumerate(hist):
+            if i < len(got):
+                v = self.judge(step, {"res": got[i]})
+                if v is not None:
+                    return "%s [definition %d of %d read one after the other in one process: %s]" % (v, i + 1, len(hist) + 1, _ident(step))
+        v = self.judge(case, impl)
+        if v is not None and hist:
+            v += " [read after %s in the same process, which gave %s]" % ([_ident(x) for x in hist], got)
+        return v
+
+    def judge(self, case, impl):
         ok, why = rules_ok(case)
         res = impl.get("res")
         if "via_dependency" in impl:
@@ -679,8 +866,9 @@ class RulesSuite(common.Suite):
         if ok and res != "ok":
             return "valid-rejected: a definition that obeys every static rule is not accepted: %s %s" % (res, impl.get("soft_cls") or impl.get("soft_msg"))
         if not ok and res == "ok":
-            if any(KELVIN in c for c in case["header"]["ns"] + [case["header"]["short"]]) and why == "type name / namespace component":
-                return "non-ascii-name-accepted: a type name / namespace component with U+212A KELVIN SIGN is accepted"
+            odd = [c for c in case["header"]["ns"] + [case["header"]["short"]] if not c.isascii()]
+            if odd and why == "type name / namespace component":
+                return "non-ascii-name-accepted: a type name / namespace component with a character outside ASCII is accepted: %s" % ascii(odd[0])
             return "invalid-accepted: accepted although this rule is violated: " + why
         if not ok and res != "invalid":
             if uses_service(case) and res == "internal":
@@ -726,6 +914,15 @@ class RulesSuite(common.Suite):
             yield "error:" + str(impl.get("soft_cls"))
         for v in case.get("violations") or []:
             yield "mutator:" + v
+        if case.get("history"):
+            yield "history:%d" % len(case["history"])
+            seq = str(case.get("seq") or "?").split("/")
+            yield "seq:" + "/".join(seq[:1] + seq[2:3])
+            if seq[0] == "name-twin":
+                yield "lookalike:" + seq[1]
+                yield "lookalike-at:" + seq[-1]
+            for step, r in zip(case["history"], impl.get("history") or []):
+                yield "earlier:%s-then-%s" % ("valid" if rules_ok(step)[0] else "invalid", "valid" if ok else "invalid")
         yield "kind:" + ("service" if any(s[0] == "marker" for s in case["stmts"]) else "message")
         if any(s[0] == "union" for s in case["stmts"]):
             yield "union"
